@@ -51,6 +51,7 @@ def run(ctx):
                         tg = [t for t in cs.gargs if not t.startswith("'")]
                         if tg and (tg[0] == tpath or tg[0].endswith('Box<%s>' % tpath)):
                             rec.add(which)
+    gen_thrift.loops_consume(rep, 'G09.g')
     for which in sorted(rec):
         rep.bad('G09.d', 'G09.d|generated|recursive %s without depth budget' % which, '', 'generated %s of a recursive type calls itself with no depth parameter: nesting depth is bounded only by the input length, so a small crafted input exhausts the stack' % which)
     return rep
